@@ -185,6 +185,11 @@ def runtime_battery():
     Sb = [("in", "CLK", 1, 0), ("bidir", "S", 4, "Z"), ("out", "Y", 8)]
     for src in ("CLK S_out Y\n0 C 1\n", "S S_out\n1 C\n", "S_out\nC\n", "CLK S S_out Y\nC Z C X\n", "S_out CLK\nC C\n"):
         b.append(Scenario(src, Sb, default_answer=[0, 0], max_rows=20, note="C in the _out column of a bidirectional signal: rejected at bind time, never a panic"))
+    # sixth round: the same TestCase value run before by drivers with other answer layouts (longer, foreign signals first)
+    So = [("in", "A", 1, 0), ("out", "Y", 8), ("out", "Q", 8)]
+    for pre, lay in (([["?0", "Y"]], ["Y"]), ([["?0", "?1", "Q", "Y"]], ["Q", "Y"]), ([["Y", "Q"], ["Q"]], ["Q"]), ([["?0", "Q"]], ["Q"])):
+        b.append(Scenario("A Y Q\n0 X X\n1 X X\n", So, layout=lay, default_answer=[1] * len(lay), pre_layouts=pre, max_rows=20,
+                          note="earlier runs with layouts %s, then a driver with layout %s" % (pre, lay)))
     # fifth round: a row whose output extraction fails inside a loop, iteration continued
     Sv = [("in", "A", 8, 0), ("out", "Y", 8), ("out", "B", 8)]
     b.append(Scenario("A Y V\ndeclare V = 8 / B;\nlet k = 7;\nloop(i,3)\n(i+k) X X\nend loop\n(k) X X\n", Sv, default_answer=[0, 1],
@@ -465,3 +470,11 @@ def panic_site_audit(O):
         else:
             O.violation(label, None, dict(R.facts, what="new panic site", function=fn[:80], panic=msg[:80]), R.battery, R.judge, label)
     O.note("%d run-time functions, %d paths, %d locally reachable panic sites (%d listed, %d new)" % (nfn, npaths, len(sites), len(sites) - new, new))
+
+
+@obligation("C10/no-state-outside-the-iterator", profiles=("dev",),
+            desc="TestCase has no interior mutability and the crate keeps no mutable global state: positions into a driver's "
+                 "answer are computed from that driver's own first answer, never reused from another run (type-level facts)")
+def no_state_outside(O):
+    from . import C15, dri
+    C15.no_shared_state_core(O, dri.Rep({"family": "runtime"}, runtime_battery(), runtime_judge))
